@@ -612,3 +612,21 @@ def promotion_then_castle():
                 for k in "qrbn":
                     out.append((fen, [base + k]))
     return out
+
+
+def king_guarded_piece_positions():
+    """a knight next to the mover's king, guarded only by the enemy king standing on any of its other sides:
+    capturing it is illegal whichever side the guard stands on (both colours)"""
+    out = []
+    tf, tr = 3, 3
+    nb = [(df, dr) for df in (-1, 0, 1) for dr in (-1, 0, 1) if (df, dr) != (0, 0)]
+    for kf, kr in nb:
+        for ef, er in nb:
+            K = (tf + kf, tr + kr)
+            E = (tf + ef, tr + er)
+            if max(abs(K[0] - E[0]), abs(K[1] - E[1])) < 2:
+                continue
+            for stm in "wb":
+                grid = {K: "K" if stm == "w" else "k", E: "k" if stm == "w" else "K", (tf, tr): "n" if stm == "w" else "N"}
+                out.append(fen_of_grid(grid, stm=stm))
+    return out
